@@ -2,6 +2,7 @@ package rules
 
 import (
 	"fmt"
+	"go/token"
 	"go/types"
 	"sort"
 	"strings"
@@ -19,7 +20,7 @@ func init() {
 		Title: "Queries see one consistent snapshot while maintenance runs",
 		Decides: "every pin of a table snapshot (currentSnapshot/CurrentSnapshot in measure, stream, trace, sidx) is released or handed to an owner on every exit of the pinning function; " +
 			"reference-count fields are touched only by the ref-count protocol functions and parts are released only when the count reaches zero; the table's snapshot pointer is read and written under the table lock; " +
-			"trace snapshot transactions are committed only under the publication fence; the generic Transition/Transaction release what they pinned.",
+			"trace snapshot transactions are committed only under the publication fence; the generic Transition/Transaction release what they pinned; the mutable removable flag is read only by the release path and by sidx' counting accessor, never to derive a reader's part set; the merged-id set handed to a merge introduction is not written again by the caller.",
 		NotDecided: "linearizability of what a query observes, absence of data races in general, whether the row-path trace query needs the publication fence.",
 		Technique:  "SSA acquire/release typestate with alias closure and ownership transfer; field-write confinement; must-lockset analysis",
 		Run:        runC05,
@@ -328,6 +329,156 @@ func (r *R) refRules() {
 			r.Hold(rule, construct, r.fpos(f), "removal only on the removable.Load()==true outcome")
 		}
 		r.neverBefore(rule, f, call("(*"+s.pkg+".part).close"), rmAny, nil)
+	}
+
+	// the removable flag is mutable state shared by every snapshot that lists the part: a pinned snapshot's
+	// part set must not depend on it. It is read only by the release path (which decides the directory
+	// removal) and by sidx' active-part accessor, whose result is only counted.
+	{
+		rule := "c05.removable-confined"
+		n := 0
+		for _, s := range sibsAll {
+			for _, f := range r.P.ModuleFuncs(s.pkg) {
+				base := r.fpos(f)
+				if i := strings.LastIndex(base, "/"); i >= 0 {
+					base = base[i+1:]
+				}
+				if strings.HasPrefix(base, "benchmark_") {
+					continue
+				}
+				for _, in := range ssax.Find(f, func(in ssa.Instruction) bool {
+					c, ok := in.(*ssa.Call)
+					if !ok || ssax.CalleeName(c.Common()) != "(*sync/atomic.Bool).Load" || len(c.Call.Args) == 0 {
+						return false
+					}
+					fv := ssax.FieldOf(c.Call.Args[0])
+					return fv != nil && fv.Name() == "removable"
+				}) {
+					n++
+					fname := ssax.FuncName(f)
+					construct := "removable read in " + fname
+					removes := len(ssax.FindDeep(f, func(x ssa.Instruction) bool {
+						cc := ssax.Common(x)
+						return cc != nil && strings.HasSuffix(ssax.CalleeName(cc), ".MustRMAll")
+					})) > 0
+					switch {
+					case removes:
+						r.Hold(rule, construct, r.pos(in), "release path: the flag decides the directory removal")
+					case fname == "(*"+sibX.pkg+".Snapshot).getPartsAll":
+						r.Hold(rule, construct, r.pos(in), "active-part accessor (callers confined below)")
+					default:
+						r.Violate(rule, construct, r.pos(in), "the part set a reader derives from a pinned snapshot depends on the removable flag, which a concurrent merge sets on parts of that same snapshot: the reader sees the merged part's inputs vanish (or sees neither) in the middle of its evaluation")
+					}
+				}
+			}
+		}
+		if f := r.fn(rule, sibX.pkg, "(*Snapshot).getPartsAll"); f != nil {
+			r.whoMayCall(rule, f, []string{"(*" + sibX.pkg + ".Snapshot).getPartCount"})
+		}
+		if f := r.fn(rule, sibX.pkg, "(*Snapshot).getPartCount"); f != nil {
+			// counting only: statistics, String, and the start-up "anything loaded" test
+			r.whoMayCall(rule, f, []string{"(*" + sibX.pkg + ".Snapshot).String", "(*" + sibX.pkg + ".sidx).Stats", "(*" + sibX.pkg + ".sidx).loadSnapshot"})
+		}
+		r.Floor(rule, 5)
+	}
+
+	// the merged-id set handed to mergePartsThenSendIntroduction is retained by the (pooled) introduction:
+	// the caller gives it away and must not mutate it afterwards
+	{
+		rule := "c05.merged-set-owned"
+		n := 0
+		isMut := func(m func(ssa.Value) bool) ssax.Matcher {
+			return func(in ssa.Instruction) bool {
+				switch x := in.(type) {
+				case *ssa.MapUpdate:
+					return m(x.Map)
+				case *ssa.Call:
+					if b, ok := x.Call.Value.(*ssa.Builtin); ok && (b.Name() == "delete" || b.Name() == "clear") && len(x.Call.Args) > 0 {
+						return m(x.Call.Args[0])
+					}
+				}
+				return false
+			}
+		}
+		for _, s := range sibsMST {
+			for _, f := range r.P.ModuleFuncs(s.pkg) {
+				base := r.fpos(f)
+				if i := strings.LastIndex(base, "/"); i >= 0 {
+					base = base[i+1:]
+				}
+				if strings.HasPrefix(base, "benchmark_") {
+					continue
+				}
+				for _, in := range ssax.Find(f, func(in ssa.Instruction) bool {
+					c, ok := in.(*ssa.Call)
+					return ok && strings.HasPrefix(ssax.CalleeName(c.Common()), "(*"+s.pkg+".tsTable).mergePartsThenSendIntroduction")
+				}) {
+					if strings.HasPrefix(ssax.FuncName(f), "(*"+s.pkg+".tsTable).mergePartsThenSendIntroduction") {
+						continue // the wrapper forwarding to the Observed variant
+					}
+					var arg ssa.Value
+					for _, a := range in.(*ssa.Call).Call.Args {
+						if _, ok := a.Type().Underlying().(*types.Map); ok {
+							arg = a
+						}
+					}
+					if arg == nil {
+						continue
+					}
+					n++
+					construct := fmt.Sprintf("%s: merged-id set handed over at call #%d is not mutated afterwards", ssax.FuncName(f), n)
+					// (a) a value of this function
+					same := func(v ssa.Value) bool { return v == arg }
+					var cell ssa.Value
+					if u, ok := arg.(*ssa.UnOp); ok && u.Op == token.MUL {
+						cell = u.X
+						same = func(v ssa.Value) bool {
+							l, ok := v.(*ssa.UnOp)
+							return v == arg || ok && l.Op == token.MUL && l.X == cell
+						}
+					}
+					if tgt, _, found := (ssax.Search{Target: isMut(same)}).From(f, in); found {
+						r.Violate(rule, construct, r.pos(in), fmt.Sprintf("the map given to the introduction at %s is written again at %s: the pooled introduction (and the introducer applying it) aliases the caller's working set", r.pos(in), r.pos(tgt)))
+						continue
+					}
+					// (b) a variable captured from the enclosing function: look at what the parent does after calling the closure
+					bad := ""
+					if fv, ok := cell.(*ssa.FreeVar); ok && f.Parent() != nil {
+						par := f.Parent()
+						idx := -1
+						for i, x := range f.FreeVars {
+							if x == fv {
+								idx = i
+							}
+						}
+						for _, mc := range ssax.Find(par, func(in ssa.Instruction) bool {
+							m, ok := in.(*ssa.MakeClosure)
+							return ok && m.Fn == f
+						}) {
+							pcell := mc.(*ssa.MakeClosure).Bindings[idx]
+							psame := func(v ssa.Value) bool {
+								l, ok := v.(*ssa.UnOp)
+								return ok && l.Op == token.MUL && l.X == pcell
+							}
+							for _, cs := range ssax.Find(par, func(in ssa.Instruction) bool {
+								c, ok := in.(*ssa.Call)
+								return ok && c.Call.Value == mc.(*ssa.MakeClosure)
+							}) {
+								if tgt, _, found := (ssax.Search{Target: isMut(psame)}).From(par, cs); found {
+									bad = fmt.Sprintf("the map given to the introduction at %s is the enclosing function's variable, which %s writes again at %s after the hand-over at %s: the pooled introduction (and the introducer applying it) aliases the caller's working set, and resetting either empties the other", r.pos(in), ssax.FuncName(par), r.pos(tgt), r.pos(cs))
+								}
+							}
+						}
+					}
+					if bad != "" {
+						r.Violate(rule, construct, r.pos(in), bad)
+					} else {
+						r.Hold(rule, construct, r.pos(in), "")
+					}
+				}
+			}
+		}
+		r.Floor(rule, 7)
 	}
 }
 
